@@ -16,16 +16,18 @@ from harness import env, render, spaccept, world
 from harness.common import Raw, cq
 
 PID = "C19"
-PARALLEL = 8
+PARALLEL = 6
 IMPORTS = "From Verif Require Import C19.Model C19.Spec C19.Corr."
 CASE_TYPE = "C19.Corr.case"
 RUNNER = "C19.Corr.run"
-FINDING_CLASSES = {1: "C19-F1", 2: "C19-F2", 3: "C19-F3"}
+FINDING_CLASSES = {1: "C19-F1", 2: "C19-F2", 3: "C19-F3", 4: "C19-F4"}
 RULE = ("histories of cache / logout operations against one real Saml2Client per case: (a) complete enumeration of the "
         "expiry boundary table not_on_or_after in {0, now-1, now, now+1} x check flag x read operation; (b) complete "
         "enumeration of logout flows over every ordered world of 1 or 2 IdPs out of 9 SLO-endpoint kinds x 3 preferred-"
-        "binding orders x every answer order, each followed by a duplicate answer, an unknown InResponseTo, an answer from "
-        "the wrong issuer, a re-login and the left-over answers; (c) IdP-initiated LogoutRequest for named/current subject "
+        "binding orders (quick tier: order SRP complete, a seeded third of the worlds for the two other orders) x every "
+        "answer order, each followed by a duplicate answer, an unknown InResponseTo, an answer from "
+        "the wrong issuer, a re-login and the left-over answers; (b') three front-channel IdPs x every sequence of four "
+        "answers among the live requests (second, moot requests to a party included) + re-login + late answers; (c) IdP-initiated LogoutRequest for named/current subject "
         "in subjects^2 x IdP kind x binding; (d) seeded random histories (length <= 40, 1-3 subjects out of 5 NameIDs that "
         "differ in one field only, 1-3 IdPs) with adaptive selection of pending request ids.  non-trivial = distinct "
         "(operation kind, output kind, world class) triples observed")
@@ -584,6 +586,27 @@ def flow_variants():
     return cases
 
 
+def three_idp_histories(thorough):
+    """(b') three front-channel IdPs: every sequence of four answers chosen among the live requests (a party
+    can hold two requests of the same logout: moot second answers, class 4), then a re-login and a late answer"""
+    import itertools
+
+    cases = []
+    triples = [["R", "P", "RP"], ["PR", "R", "P"]] + ([["P", "RP", "PR"]] if thorough else [])
+    for idps in triples:
+        for seq in itertools.product(range(3), repeat=4):
+            ops = [["Login", 0, i, T0 + 1000, i + 1] for i in range(3)] + [["Login", 1, 0, T0 + 1000, 9]]
+            ops.append(["StartLogout", 0, T0 + 500, ["ok"] * 3])
+            for j in seq:
+                ops.append(["LogoutResponse", {"live": j}, "addr", True, ["ok"] * 3, "RP"[j % 2]])
+            ops += [["GetIdentity", 0, [], True], ["Login", 0, 0, T0 + 1000, 7],
+                    ["LogoutResponse", {"old": seq[0]}, "addr", True, ["ok"] * 3, "R"],
+                    ["LogoutResponse", {"live": 0}, "addr", True, ["ok"] * 3, "R"],
+                    ["GetIdentity", 0, [], True], ["GetIdentity", 1, [], True]]
+            cases.append(mk("SRP", idps, [0, 1], ops, "flow3"))
+    return cases
+
+
 def request_histories():
     """(c) IdP-initiated LogoutRequest: named x current x IdP kind x binding"""
     cases = []
@@ -712,6 +735,7 @@ def generate(ctx):
         extra = flow_histories(["RPS", "PSR"])
         cases += rng.sample(extra, len(extra) // 3)
     cases += flow_variants()
+    cases += three_idp_histories(ctx.thorough)
     cases += request_histories()
     for k in range(3000 if ctx.thorough else 300):
         cases.append(random_history(rng, k))
